@@ -34,6 +34,11 @@ CONSTANTS L,          \* payload size limit of the model
           SingleLE,   \* TRUE: single packet when size <= L (H264); FALSE: size < L (H265)
           MaxUnits,
           SizeSet,    \* unit sizes explored
+          FillMode,   \* TRUE: frames of 1..MaxUnits-1 small units (SmallSet) followed by ONE unit whose
+                      \* size sweeps, byte by byte, the space the packet being filled has left
+                      \* (L minus what the frame holds so far, -14..+2): the place where a unit
+                      \* "just fits" or "just does not" depends on every header the format adds
+          SmallSet,
           LaterBatch  \* TRUE: a third unit is explored only after <<L-1, small>> - the first unit is
                       \* flushed alone and the second and third meet every threshold of a LATER batch
 
@@ -79,18 +84,38 @@ Init == units = <<>> /\ beh = ""
 AB(sz) == LET a == (sz + 8) \div L IN [a |-> a, b |-> sz - a * L]
 
 AddUnit ==
+  /\ ~FillMode
   /\ Len(units) < MaxUnits
   /\ (LaterBatch /\ Len(units) = 2) => (units[1] = L - 1 /\ units[2] \in 2..8)
   /\ \E sz \in SizeSet :
        /\ units' = Append(units, sz)
        /\ beh' = ToJson([units |-> [i \in 1..Len(units') |-> AB(units'[i])],
                          npkts |-> Len(Encode(units'))])
-Next == AddUnit
+
+\* fill frames: the last unit is given relative to the space left (r = 1: size = limit - sum of
+\* the units before it + b)
+Small(sz) == [a |-> 0, b |-> sz, r |-> 0]
+AddSmall ==
+  /\ FillMode /\ beh = "" /\ Len(units) < MaxUnits - 1
+  /\ \E sz \in SmallSet : units' = Append(units, sz) /\ beh' = ""
+AddLast ==
+  /\ FillMode /\ beh = "" /\ Len(units) >= 1
+  /\ \E d \in -14..2 :
+       LET sz == L - Sum(units) + d IN
+       /\ sz >= 1
+       /\ units' = Append(units, sz)
+       /\ beh' = ToJson([fill |-> TRUE,
+                         units |-> [i \in 1..Len(units') |->
+                                      IF i < Len(units') THEN Small(units'[i]) ELSE [a |-> 0, b |-> d, r |-> 1]],
+                         npkts |-> Len(Encode(units'))])
+Next == AddUnit \/ AddSmall \/ AddLast
 Spec == Init /\ [][Next]_vars
 
 \* size sets for the configurations
 SizesAll == (2..8) \cup (12..28) \cup (32..48)
 SizesAll265 == (3..8) \cup (12..28) \cup (32..48)
+SmallSizes == {2, 3, 5}
+NoSizes == {}
 SizesEdge == {2, 3, 8, 12, 15, 16, 17, 18, 19, 20, 21, 22, 23, 28, 32, 37, 38, 39, 40, 41, 42, 48}
 
 \* ---- what TLC checks on the model --------------------------------------------
